@@ -96,7 +96,8 @@ Record state : Type := {
   cache : list (key2 * value);          (* instance.__cache__ , insertion ordered *)
   cyc : list iid;                       (* HookFunction.cycle = True *)
   ocls : list (obj * cls);
-  trace : list iid }.                   (* implementations invoked, most recent first *)
+  trace : list iid;                     (* implementations invoked, most recent first *)
+  inget : bool }.                       (* Hook._read_depth > 0: some read is computing a value further up the stack *)
 
 Definition store_of (st : state) (k : key3) : list iid :=
   match alookup key3_eqb (stores st) k with Some l => l | None => [] end.
@@ -114,13 +115,15 @@ Definition functions (st : state) (c : cls) (h : hook) : list iid :=
   flat_map (fun t => flat_map (fun s => rev (store_of st (s, h, t))) (mro c)) [0; 1; 2; 3; 4; 5].
 
 Definition set_cache (st : state) (c : list (key2 * value)) : state :=
-  {| stores := stores st; impls := impls st; dict := dict st; cache := c; cyc := cyc st; ocls := ocls st; trace := trace st |}.
+  {| stores := stores st; impls := impls st; dict := dict st; cache := c; cyc := cyc st; ocls := ocls st; trace := trace st; inget := inget st |}.
 Definition set_cyc (st : state) (c : list iid) : state :=
-  {| stores := stores st; impls := impls st; dict := dict st; cache := cache st; cyc := c; ocls := ocls st; trace := trace st |}.
+  {| stores := stores st; impls := impls st; dict := dict st; cache := cache st; cyc := c; ocls := ocls st; trace := trace st; inget := inget st |}.
 Definition push_trace (st : state) (i : iid) : state :=
-  {| stores := stores st; impls := impls st; dict := dict st; cache := cache st; cyc := cyc st; ocls := ocls st; trace := i :: trace st |}.
+  {| stores := stores st; impls := impls st; dict := dict st; cache := cache st; cyc := cyc st; ocls := ocls st; trace := i :: trace st; inget := inget st |}.
+Definition set_inget (st : state) (b : bool) : state :=
+  {| stores := stores st; impls := impls st; dict := dict st; cache := cache st; cyc := cyc st; ocls := ocls st; trace := trace st; inget := b |}.
 Definition set_dict (st : state) (d : list (key2 * value)) : state :=
-  {| stores := stores st; impls := impls st; dict := d; cache := cache st; cyc := cyc st; ocls := ocls st; trace := trace st |}.
+  {| stores := stores st; impls := impls st; dict := d; cache := cache st; cyc := cyc st; ocls := ocls st; trace := trace st; inget := inget st |}.
 
 Definition flagged (st : state) (i : iid) : bool := existsb (Nat.eqb i) (cyc st).
 Definition cls_of (st : state) (o : obj) : cls := match alookup Nat.eqb (ocls st) o with Some c => c | None => 0 end.
@@ -137,7 +140,10 @@ Definition apply_post (p : postop) (x : value) : outcome :=
   | PoPre e => Exn e
   end.
 
-(* Hook.__get__ on an instance, given the function that computes Hook.get_result *)
+(* Hook.__get__ on an instance, given the function that computes Hook.get_result.
+   A RecursionError (fuel exhaustion) coming out of the computation is turned into AttributeError only by the OUTERMOST read on the
+   stack (Hook._read_depth == 1); a read nested in another read's computation lets it pass, so that no handler half-way up the stack
+   (has_value, try/except AttributeError in an implementation) can turn a runaway recursion into a value. *)
 Definition read_with (gr : state -> obj -> cls -> hook -> state * outcome)
            (st : state) (o : obj) (h : hook) : state * outcome :=
   match match alookup key2_eqb (dict st) (o, h) with Some VNone | None => None | Some v => Some v end with
@@ -147,9 +153,11 @@ Definition read_with (gr : state -> obj -> cls -> hook -> state * outcome)
     match match alookup key2_eqb (cache st) (o, h) with Some VNone | None => None | Some v => Some v end with
     | Some v => (st, Val v)
     | None =>
-      let '(st1, r) := gr st o (cls_of st o) h in
+      let was := inget st in
+      let '(st0, r) := gr (set_inget st true) o (cls_of st o) h in
+      let st1 := set_inget st0 was in
       match r with
-      | Exn ERecursion => (st1, Exn EAttr)
+      | Exn ERecursion => (st1, Exn (if was then ERecursion else EAttr))
       | Exn e => (st1, Exn e)
       | Val VNone => (st1, Exn EAttr)
       | Val v => if nonfinite v then (st1, Exn EValue)
@@ -300,7 +308,7 @@ Inductive op : Type :=
 Inductive obs : Type := ODone | OOut (r : outcome) | OList (l : list iid).
 
 Definition with_stores (st : state) (s : list (key3 * list iid)) (im : list (iid * impl)) : state :=
-  {| stores := s; impls := im; dict := dict st; cache := cache st; cyc := cyc st; ocls := ocls st; trace := trace st |}.
+  {| stores := s; impls := im; dict := dict st; cache := cache st; cyc := cyc st; ocls := ocls st; trace := trace st; inget := inget st |}.
 
 Definition remove_from_hook (st : state) (c : cls) (h : hook) (i : iid) : state :=
   with_stores st
@@ -325,12 +333,12 @@ Definition step (fuel : nat) (st : state) (o : op) : state * obs :=
   | Touch _ _ => (st, ODone)
   | NewObj ob c =>
       ({| stores := stores st; impls := impls st; dict := dict st; cache := cache st; cyc := cyc st;
-          ocls := (ob, c) :: ocls st; trace := trace st |}, ODone)
+          ocls := (ob, c) :: ocls st; trace := trace st; inget := inget st |}, ODone)
   | CopyObj ob src =>
       let own (kv : key2 * value) := Nat.eqb (fst (fst kv)) src in
       let moved (l : list (key2 * value)) := map (fun kv => ((ob, snd (fst kv)), snd kv)) (filter own l) in
       ({| stores := stores st; impls := impls st; dict := moved (dict st) ++ dict st; cache := moved (cache st) ++ cache st;
-          cyc := cyc st; ocls := (ob, cls_of st src) :: ocls st; trace := trace st |}, ODone)
+          cyc := cyc st; ocls := (ob, cls_of st src) :: ocls st; trace := trace st; inget := inget st |}, ODone)
   | Read ob h => let '(st1, r) := read fuel st ob h in (st1, OOut r)
   | Assign ob h v => (set_dict st (aset key2_eqb (dict st) (ob, h) v), ODone)
   | Delete ob h => (set_dict st (adel key2_eqb (dict st) (ob, h)), ODone)
@@ -352,4 +360,4 @@ Fixpoint run (fuel : nat) (st : state) (ops : list op) : state * list obs :=
 End Machine.
 
 Definition init : state :=
-  {| stores := []; impls := []; dict := []; cache := []; cyc := []; ocls := []; trace := [] |}.
+  {| stores := []; impls := []; dict := []; cache := []; cyc := []; ocls := []; trace := []; inget := false |}.
